@@ -251,7 +251,13 @@ fn bytes_conform(u: &Universe, ty: &Ty, v: u32, x: &DV, lib: &[u8], reference: &
     }
     match u.dec_all(ty, v, lib) {
         Ok(d) => {
-            let want = u.after_reload(ty, v, x).map_err(|e| format!("{:?}", e))?;
+            let want = match u.after_reload(ty, v, x) {
+                Ok(w) => w,
+                // no expectation for the value (e.g. hash-map keys that collide at this version): the
+                // lengths agree and the reference decoder accepts the bytes, nothing more can be said
+                Err(EncErr::NoExp(_)) => return Ok(()),
+                Err(e) => return Err(format!("{:?}", e)),
+            };
             if u.canon(ty, &d) != u.canon(ty, &want) {
                 return Err(format!("reference decoder reads {} from library bytes, value is {}", d.render(), want.render()));
             }
